@@ -24,12 +24,12 @@ def _hook_rank(interp, st, args):
 
 
 def _hook_chain_wf(interp, st, args):
-    """every allocated type's parent is allocated-or-None and strictly smaller in the ghost rank (acyclic chain)"""
+    """the parent relation is well founded: every type's parent is strictly smaller in the ghost rank (acyclic chains)"""
     N, P = _arrs(interp, st)
     x = z3.Const("x!wf", I)
-    body = z3.Implies(z3.And(x >= 1, x <= st.top),
-                      z3.And(z3.Select(P, x) >= 0, z3.Select(P, x) <= st.top, z3.Select(RANK, x) >= 0,
-                             z3.Implies(z3.Select(P, x) != 0, z3.Select(RANK, z3.Select(P, x)) < z3.Select(RANK, x))))
+    # stated for every reference (no allocation bound), so that it is trivially preserved by allocations of other objects
+    body = z3.And(z3.Select(RANK, x) >= 0,
+                  z3.Implies(z3.Select(P, x) != 0, z3.Select(RANK, z3.Select(P, x)) < z3.Select(RANK, x)))
     return Val(z3.ForAll([x], body, patterns=[z3.Select(P, x)]), "bool")
 
 
